@@ -12,7 +12,7 @@ COMMON_NOTE = ("Trusted: Coq 8.16.1 kernel; no axioms (Print Assumptions output 
                "both quoting backends built from the working tree; extracted theorem predicates applied to the "
                "implementation's outputs.")
 
-TECH = ("Coq proof (Rocq 8.16.1, kernel-checked, no axioms) over a hand-written Gallina model; tie to the source: tables regenerated from /repo each run, Python-ast-to-Gallina re-translation of _path.py, unsplit_result, make_netloc, encode_url, pre_encoded_url, __str__, __eq__, the ordering operators, 21 accessors, 13 modifiers, join and split_netloc with equality proofs, "
+TECH = ("Coq proof (Rocq 8.16.1, kernel-checked, no axioms) over a hand-written Gallina model; tie to the source: tables regenerated from /repo each run, Python-ast-to-Gallina re-translation of _path.py, unsplit_result, make_netloc, encode_url, pre_encoded_url, __str__, __eq__, the ordering operators, 25 accessors, 13 modifiers, _make_child, join, split_netloc, _encode_host and the pinned IDNA helpers with equality proofs, "
         "extracted-model differential correspondence against both backends, extracted theorem predicates evaluated on the implementation's outputs")
 
 CHECKS = {
@@ -182,9 +182,10 @@ CHECKS = {
         "text": ("Proved (oracle answers as explicit premises): the regenerated NOT_REG_NAME class is the RFC 3986 reg-name grammar; an ASCII "
                  "non-IP host is stored lower-cased and build()/with_host() accept it iff it is a reg-name; encoding is idempotent on names; "
                  "IP literals take the compressed spelling, IPv6 bracketed, zone verbatim; a stored host with ':' is always shown bracketed; "
-                 "the NFKC screen rejects. IDNA-encoded hosts (lower-case ASCII output) and 'decoded host re-encodes' are checked by extracted "
+                 "the NFKC screen rejects; _encode_host of yarl/_url.py is re-translated from the source on every run and proved equal to the "
+                 "model (C16_source_encode_host), the IDNA helpers are pinned (C16_source_idna). IDNA-encoded hosts (lower-case ASCII output) and 'decoded host re-encodes' are checked by extracted "
                  "predicates on the implementation over a host corpus x 7 routes and all NFKC-hostile code points (thorough: every code point), "
-                 "not proved. Known finding F17 excluded."),
+                 "not proved. Known findings F17, F31 excluded."),
         "design_ref": "DESIGN.md section 7 C16",
     },
     "C17": {
